@@ -216,7 +216,9 @@ def preseed_collection(root, relpath, backend, kind):
 
     p = os.path.join(root, relpath.strip("/"))
     os.makedirs(os.path.dirname(p), exist_ok=True)
-    if backend == "bare":
+    if backend == "bare-empty":
+        st = BareGitStore.create(p)
+    elif backend == "bare":
         st = BareGitStore.create(p)
         st.set_type(kind)
     elif backend == "gitcfg":
@@ -228,6 +230,24 @@ def preseed_collection(root, relpath, backend, kind):
         f = BytesIO()
         cfg.write_to_file(f)
         st.repo._put_named_file("config", f.getvalue())
+    elif backend == "untyped":
+        # somebody's plain git repository of .ics / .vcf files (no type recorded anywhere): its kind
+        # is what its contents say
+        from xandikos.icalendar import ICalendarFile
+        from xandikos.vcard import VCardFile
+
+        st = TreeGitStore.create(p)
+        st.load_extra_file_handler(ICalendarFile)
+        st.load_extra_file_handler(VCardFile)
+        import random as _r
+
+        from . import gen
+
+        rr = _r.Random(7)
+        if kind == "calendar":
+            st.import_one("first.ics", "text/calendar", [gen.ics(rr, "untyped-1", comp="VEVENT", rich=0)])
+        else:
+            st.import_one("first.vcf", "text/vcard", [gen.vcf(rr, uid="untyped-card-1")])
     else:
         st = TreeGitStore.create(p)
         st.set_type(kind)
